@@ -206,9 +206,12 @@ def run_synth(rng):
     if rng.random() < 0.35:
         # lines whose text is just below / at / above the maximum line length: the colour sequences of the
         # coloured variant must not count towards the limit
-        near_limit = rng.choice([120, 150, 200])
+        near_limit = rng.choice([30, 60, 120, 150, 200])
         for s_ in d.sections:
             for h in s_.hunks:
+                if rng.random() < 0.5:
+                    # hunk headers are exempt from the limit, coloured or not
+                    h.fragment = ('fn a_rather_long_function_name(argument: Type) -> Result<Value, Error> ' * 4)[:near_limit + rng.randint(-20, 60)].rstrip()
                 new = []
                 for kk, t in h.lines:
                     if kk in '+- ' and rng.random() < 0.5:
@@ -221,6 +224,9 @@ def run_synth(rng):
     rl = d.role_lines()
     if crlf:
         rl = [(r, l + '\r' if r == 'hunk' else l) for r, l in rl]
+        if rng.random() < 0.5:
+            # some of the CRLF lines hold a byte that is not valid UTF-8 (written as a lone surrogate here)
+            rl = [(r, l[:2] + '\udcff' + l[2:] if r == 'hunk' and len(l) > 3 and rng.random() < 0.4 else l) for r, l in rl]
     lines = [l for _, l in rl]
     variant = {k: rng.random() < 0.5 for k in VARIANT_KEYS}
     variant['reset'] = rng.choice(['m', '0m'])
@@ -232,8 +238,8 @@ def run_synth(rng):
     vtag = '+'.join(sorted(k for k in VARIANT_KEYS if variant[k])) + ':' + variant['reset'] + (':crlf' if crlf else '')
     sets = {'sub': ['synthetic'], 'views': [view], 'colour_layouts': [vtag], 'option_classes': meta['classes']}
     counters = {'pairs': 1, 'input_lines': len(lines)}
-    plain_b = ('\n'.join(lines) + '\n').encode()
-    col_b = ('\n'.join(colored) + '\n').encode()
+    plain_b = ('\n'.join(lines) + '\n').encode('utf-8', 'surrogateescape')
+    col_b = ('\n'.join(colored) + '\n').encode('utf-8', 'surrogateescape')
     bad = compare(plain_b, col_b, opts, meta, view, 'synthetic', sets, counters)
     if bad is not None:
         return bad
